@@ -97,9 +97,9 @@ def check_table(run, rule, f, cfg, dialect, name, tab):
             elif shape == "union":
                 txt = render(f, linker, trait, tab["method"], [val, Opaque("select")])
             elif shape == "order":
-                txt = render(f, linker, trait, tab["method"], [{"expr": Opaque("e"), "order": val, "nulls": None}])
+                txt = render(f, linker, trait, tab["method"], [{"expr": Var("crate::expr::SimpleExpr::Column", [Opaque("e")]), "order": val, "nulls": None}])
             elif shape == "nulls":
-                txt = render(f, linker, trait, tab["method"], [{"expr": Opaque("e"), "order": Var("crate::types::Order::Asc"), "nulls": ("__some", val)}])
+                txt = render(f, linker, trait, tab["method"], [{"expr": Var("crate::expr::SimpleExpr::Column", [Opaque("e")]), "order": Var("crate::types::Order::Asc"), "nulls": ("__some", val)}])
             elif shape == "lock-type":
                 txt = render(f, linker, trait, tab["method"], [{"type": val, "tables": [], "behavior": None}])
             elif shape == "lock-behavior":
